@@ -460,3 +460,19 @@ mod test {
         }
     }
 }
+
+#[cfg(lora_rs_verif)]
+impl JoinChannels {
+    pub(crate) fn verif_snapshot(&self) -> crate::region::verif::JoinChannelsSnapshot {
+        let mut available = [0u8; 9];
+        available.copy_from_slice(self.available_channels.data.as_ref());
+        crate::region::verif::JoinChannelsSnapshot {
+            max_retries: self.max_retries,
+            num_retries: self.num_retries,
+            preferred_subband: self.preferred_subband.map(|s| s as usize as u8),
+            available,
+            available_previous: self.available_channels.previous,
+            previous_channel: self.previous_channel,
+        }
+    }
+}
